@@ -161,8 +161,23 @@ def check(ctx):
     # every opener receives the caller's keyword arguments (encoding, newline, ...)
     openers = list(xdetails.items()) + [("(none)", r.value) for r in plain if isinstance(r.value, ast.Call)]
     for suf, call in openers:
-        fwd = xo.kwarg is not None and any(k.arg is None and isinstance(k.value, ast.Name) and k.value.id == xo.kwarg
-                                           for k in call.keywords)
+        def _carries_kwargs(k):
+            """**kwargs itself, or **<local dict> whose every definition is a dict display / dict(...) that unpacks **kwargs"""
+            if not (k.arg is None and isinstance(k.value, ast.Name)):
+                return False
+            if k.value.id == xo.kwarg:
+                return True
+            from ..dataflow import defs_reaching as _dr12
+            ds_ = [d for d in _dr12(xo, k.value.id, call)]
+            def unpacks(v):
+                if isinstance(v, ast.Dict):
+                    return any(kk is None and isinstance(vv, ast.Name) and vv.id == xo.kwarg for kk, vv in zip(v.keys, v.values))
+                if isinstance(v, ast.Call) and isinstance(v.func, ast.Name) and v.func.id == "dict":
+                    return any(kw_.arg is None and isinstance(kw_.value, ast.Name) and kw_.value.id == xo.kwarg for kw_ in v.keywords) or \
+                        (v.args and isinstance(v.args[0], ast.Name) and v.args[0].id == xo.kwarg)
+                return False
+            return bool(ds_) and all(d.value is not None and unpacks(d.value) for d in ds_)
+        fwd = xo.kwarg is not None and any(_carries_kwargs(k) for k in call.keywords)
         ctx.ob("SIB-10", xo, f"keyword arguments reach {norm(call.func)} for suffix {suf}", call, fwd,
                f"**{xo.kwarg} is forwarded" if fwd else
                f"the opener for suffix {suf} is called without **{xo.kwarg}: the encoding requested by the caller is dropped for "
